@@ -721,9 +721,33 @@ pub fn gen_tags(rng: &mut Rng, len: usize, heavy: bool) -> Vec<(usize, u64, u64)
 /// Burst markers for StreamToPdu: boolean tags with key code 100, mostly alternating start/end,
 /// sometimes doubled, missing or on the same sample, plus unrelated tags.
 pub fn gen_burst_tags(rng: &mut Rng, len: usize) -> Vec<(usize, u64, u64)> {
+    gen_burst_tags_for(rng, len, None)
+}
+
+/// `limits` = (max_size, tail) of the StreamToPdu under test: a third of the inputs then consist of clean bursts
+/// whose length (with and without the tail) sits right at the size limit, where the discard and the tail
+/// countdown meet.
+pub fn gen_burst_tags_for(rng: &mut Rng, len: usize, limits: Option<(usize, usize)>) -> Vec<(usize, u64, u64)> {
     let mut v: Vec<(usize, u64, u64)> = vec![];
     if len == 0 {
         return v;
+    }
+    if let Some((max, tail)) = limits {
+        if rng.chance(1, 2) {
+            let mut pos = rng.below(len.min(20));
+            while pos < len {
+                // burst + tail = max_size + 2 - r: most often exactly one more than fits (r = 1)
+                let r = *rng.pick(&[1usize, 1, 1, 1, 0, 2, 3, 4]);
+                let on_len = (max + 2).saturating_sub(tail + r).max(1);
+                v.push((pos, 100, 1));
+                if pos + on_len < len {
+                    v.push((pos + on_len, 100, 0));
+                }
+                pos += on_len + tail + rng.range(1, 6);
+            }
+            v.sort_by_key(|t| t.0);
+            return v;
+        }
     }
     let mut pos = rng.below(len.min(40));
     let mut on = rng.chance(1, 8);
